@@ -677,6 +677,10 @@ class Model:
                 if ca.MX(p.value).is_constant() and ca.MX(p.value).is_regular():
                     symbols.append(p.symbol)
                     values.append(p.value)
+                    if p.aliases:
+                        # Only if simplify runs more than once on the same model: the
+                        # parameter is a canonical variable and is about to disappear.
+                        self.alias_relation.remove(p.symbol.name())
                 else:
                     unspecified_parameters.append(p)
 
